@@ -67,6 +67,8 @@ STRENGTHENED = {
  "C29-f": "after every paged query was also run through the verbose path (Visor.GetTransactionsWithInputs) with pages N+1, N+2, 2^32, 2^63, MaxUint64 and MaxUint64/size",
  "C32-f": "first reported without a failing input (regenerated fact 'every blocking step of Strand watches quit' false); concrete replay after workloads with calls queued on the strand for more than a second at Shutdown",
  "C20-f": "as first built (with the retry-after-crash scenarios of round 5)",
+ "C17-f": "after collection batches mixed held and new keys (held first, middle, last, repeats) followed by the entry-consistency dump, reload and relock",
+ "C19-f": "after the service under test itself could be restarted on its populated directory (restart op) and restarts were followed by duplicate-seed creates",
  "C07-b": "after the balance view (GetBalanceOfAddresses) joined the whole-state digest and the model",
 }
 rows = []
